@@ -680,6 +680,12 @@ func iterTake(c *core.Ctx, s *Stage, g *Goroutine, h *ssa.BasicBlock) {
 	nT := &ir.Term{Op: "param", Aux: ints[0].Name()}
 	q, qname, found := loopQuantity(g.An, h, nT)
 	if !found {
+		// the other representation: a counter of the elements sent, from 0 up to n; the budget is n - counter
+		if cq, _, foundC := loopQuantity(g.An, h, ir.Const("0")); foundC {
+			q, found = RemainingQuantity(cq, nT), true
+		}
+	}
+	if !found {
 		c.Undecided("iteration", s.Name, s.Fn.Pos(), "no single loop-carried budget initialised from parameter %s found (%s)", ints[0].Name(), qname)
 		return
 	}
@@ -754,7 +760,11 @@ func iterTake(c *core.Ctx, s *Stage, g *Goroutine, h *ssa.BasicBlock) {
 			match := func(t *ir.Term) (int64, bool) { return plusConst(t, sym) }
 			for i := range p.Steps {
 				if p.Steps[i].Kind == ir.KBranch {
-					iv = refineItv(iv, p.Steps[i].Atom, p.Steps[i].Pol, match)
+					at := p.Steps[i].Atom
+					if q.Atom != nil {
+						at = q.Atom(p, at)
+					}
+					iv = refineItv(iv, at, p.Steps[i].Pol, match)
 				}
 			}
 			emitted := int64(0)
